@@ -371,6 +371,18 @@ class XArray:
             return XArray(self.shape, [f(o, x) for x in self.data])
         return XArray(self.shape, [f(x, o) for x in self.data])
 
+    def __gt__(self, o):
+        return self._binop(o, lambda x, y: x > y)
+
+    def __ge__(self, o):
+        return self._binop(o, lambda x, y: x >= y)
+
+    def __lt__(self, o):
+        return self._binop(o, lambda x, y: x < y)
+
+    def __le__(self, o):
+        return self._binop(o, lambda x, y: x <= y)
+
     def __add__(self, o):
         return self._binop(o, lambda x, y: x + y)
 
